@@ -48,6 +48,9 @@ type Exec struct {
 	EvalSamples  []string
 	orphans      []*State
 	inInit       bool
+	// UnsupportedPaths: feasible paths abandoned at an unsupported construct
+	UnsupportedPaths []string
+	initObjMax   int // objects up to this id were allocated by package initialisation
 	initPkg      *ssa.Package
 	CmdPkg       *ssa.Package
 	globalIdx    map[*ssa.Global]int
@@ -127,6 +130,7 @@ func (ex *Exec) Run(fn *ssa.Function) []*State {
 		s = live[0]
 	}
 	if s != nil {
+		ex.initObjMax = ex.nextObj
 		s.Done = false
 		s.Oblig = nil
 		s.Steps = 0
@@ -234,7 +238,7 @@ func (ex *Exec) runTo(s *State, g int, depth int, stop *ssa.BasicBlock) []*State
 					}
 				}
 			}
-			req := ex.step(st)
+			req := ex.stepLocal(st)
 			if req == nil {
 				continue
 			}
@@ -372,6 +376,31 @@ func (ex *Exec) feasible(st *State, extra *smt.Term) bool {
 	}
 	r := ex.check(append(append([]*smt.Term(nil), st.PC...), extra))
 	return r != smt.Unsat
+}
+
+// stepLocal is step, with an unsupported construct confined to the path that
+// met it once the execution has forked: that path ends (infeasible paths
+// silently, feasible ones with a note that makes the job inconclusive) and
+// the other paths are still explored and discharged.
+func (ex *Exec) stepLocal(st *State) (req *forkReq) {
+	if !st.Forked {
+		return ex.step(st)
+	}
+	defer func() {
+		if r := recover(); r != nil {
+			u, ok := r.(*Unsupported)
+			if !ok {
+				panic(r)
+			}
+			req = nil
+			st.Dead = true
+			st.Reason = u.Error()
+			if ex.feasible(st, ex.st.True) {
+				ex.UnsupportedPaths = append(ex.UnsupportedPaths, u.Error())
+			}
+		}
+	}()
+	return ex.step(st)
 }
 
 // ipdom returns the immediate post-dominator of block b (nil: function exit).
@@ -705,11 +734,21 @@ func (ex *Exec) store(st *State, p *Ptr, val Value) {
 		}
 		st.SharedWrites = append(st.SharedWrites, name)
 	}
+	ex.noteInitObjWrite(st, p.Obj)
 	v, ok := st.Heap[p.Obj]
 	if !ok {
 		panic(fmt.Sprintf("store to unknown object %d", p.Obj))
 	}
 	st.Heap[p.Obj] = ex.navStore(v, p.Path, val)
+}
+
+// noteInitObjWrite records a write, after initialisation, to an object that
+// package initialisation allocated (a table or map behind a package-level
+// variable): state shared between all jobs of the process.
+func (ex *Exec) noteInitObjWrite(st *State, obj int) {
+	if obj > 0 && obj <= ex.initObjMax && !ex.inInit {
+		st.SharedWrites = append(st.SharedWrites, fmt.Sprintf("object #%d allocated by package initialisation", obj))
+	}
 }
 
 func (ex *Exec) navStore(v Value, path []PathElem, val Value) Value {
